@@ -43,12 +43,18 @@ func batteryFor(prop string) string {
 	return map[string]string{
 		"C03": "fs_battery_test.go:VERIF_BATTERY=roundtrip",
 		"C06": "fs_battery_test.go:VERIF_BATTERY=torn",
-		"C16": "fs_battery_test.go:VERIF_BATTERY=torn",
+		"C16": "fs_battery_test.go:VERIF_BATTERY=torn;fs_model_test.go:VERIF_MODEL=rebuild",
+		"C17": "fs_model_test.go:VERIF_MODEL=rebuild",
 		"C04": "fs_battery_test.go:VERIF_BATTERY=positions",
+		"C05": "fs_battery_test.go:VERIF_BATTERY=appendonly",
+		"C08": "fs_battery_test.go:VERIF_BATTERY=tamper",
+		"C09": "fs_battery_test.go:VERIF_BATTERY=ciphertext",
+		"C15": "fs_battery_test.go:VERIF_BATTERY=readonly",
+		"C07": "fs_model_test.go:VERIF_MODEL=rebuild",
 		"C01": "fs_model_test.go:VERIF_MODEL=rebuild",
-		"C02": "fs_model_test.go:VERIF_MODEL=tree",
-		"C12": "fs_model_test.go:VERIF_MODEL=tree",
-		"C13": "fs_model_test.go:VERIF_MODEL=tree",
+		"C02": "fs_model_test.go:VERIF_MODEL=tree,random",
+		"C12": "fs_model_test.go:VERIF_MODEL=tree,random",
+		"C13": "fs_model_test.go:VERIF_MODEL=tree,random",
 		"C14": "fs_model_test.go:VERIF_MODEL=file,flags",
 	}[prop]
 }
@@ -59,7 +65,25 @@ var batteryCache = map[string][2]string{}
 // rendering as one byte-level input; the family of inputs the clause quantifies over (pipeline configurations x size
 // classes, cut offsets, histories x record sizes, handle-call sequences x flags) is instantiated on the real code, next
 // to a reference where the property names one, and searched for a concrete failing input.
-func replayBattery(bat string, rep map[string]interface{}) (bool, string) {
+func replayBattery(bats string, rep map[string]interface{}) (bool, string) {
+	var cmds, outs, msgs []string
+	for _, bat := range strings.Split(bats, ";") {
+		ok, msg, cmd, out := replayOneBattery(bat)
+		cmds = append(cmds, cmd)
+		outs = append(outs, out)
+		if ok {
+			msgs = append(msgs, msg)
+		}
+	}
+	rep["replay_cmd"] = strings.Join(cmds, " ; ")
+	rep["replay_output"] = truncate(strings.Join(outs, "\n"), 8000)
+	if len(msgs) == 0 {
+		return false, "the scenario batteries (" + bats + ") ran on the real code and found no concrete failing input among their cases; the obligation still fails (model attached)"
+	}
+	return true, strings.Join(msgs, "; ")
+}
+
+func replayOneBattery(bat string) (bool, string, string, string) {
 	parts := strings.SplitN(bat, ":", 2)
 	tmplName, envSpec := parts[0], parts[1]
 	kv := strings.SplitN(envSpec, "=", 2)
@@ -68,10 +92,9 @@ func replayBattery(bat string, rep map[string]interface{}) (bool, string) {
 	if tmplName == "fs_model_test.go" {
 		run = "TestVerifReplay_Model$"
 	}
-	rep["replay_cmd"] = kv[0] + "=<" + kv[1] + "> /verif/tools/replay.sh " + repoDir() + " pkg/fs '" + run + "' " + tmpl
+	cmdline := kv[0] + "=<" + kv[1] + "> /verif/tools/replay.sh " + repoDir() + " pkg/fs '" + run + "' " + tmpl
 	if c, ok := batteryCache[bat]; ok {
-		rep["replay_output"] = c[1]
-		return c[0] != "", c[0]
+		return c[0] != "", c[0], cmdline, c[1]
 	}
 	ov := map[string]map[string]string{"Replace": {filepath.Join(repoDir(), "pkg/fs", "zz_verif_"+tmplName): tmpl}}
 	ovFile := filepath.Join(scratchDir(), "overlay_battery.json")
@@ -96,14 +119,10 @@ func replayBattery(bat string, rep map[string]interface{}) (bool, string) {
 	if len(lines) > 0 {
 		msg = "replayed on the real code: the " + envSpec + " battery finds concrete failing inputs, first: " + truncate(lines[0], 600)
 	} else {
-		text = truncate(raw, 2000)
+		text = truncate(raw, 1500)
 	}
 	batteryCache[bat] = [2]string{msg, text}
-	rep["replay_output"] = text
-	if msg == "" {
-		return false, "the " + envSpec + " battery ran on the real code and found no concrete failing input among its cases; the obligation still fails (model attached)"
-	}
-	return true, msg
+	return msg != "", msg, cmdline, text
 }
 
 var lastCallRe = regexp.MustCompile(`(?:after|at) ([A-Za-z_$0-9]+)#(\d+)`)
